@@ -201,12 +201,12 @@ Proof.
 Qed.
 
 Theorem deferred_is_session c ops s :
-  dc_faults c = [] -> d_inner (d_run c d_init ops) = Some s -> existsb is_close ops = true ->
+  dc_faults c = [] -> dc_kids c = [] -> d_inner (d_run c d_init ops) = Some s -> existsb is_close ops = true ->
   exists s2 outs fo,
     session (dc_kind c) (eff_opts c) (dc_nilroots c) (dc_roots c) [d_puts ops] = Ok (s2, outs, fo) /\
     d_bytes c (d_run c d_init ops) = ws_file s2.
 Proof.
-  intros Hf Hin Hcl. destruct (DeferredFacts.output_is_direct c ops s Hin) as (s0 & Hopen & Hb).
+  intros Hf Hnk Hin Hcl. destruct (DeferredFacts.output_is_direct c ops s Hnk Hin) as (s0 & Hopen & Hb).
   unfold direct_open in Hopen. rewrite Hf in Hopen.
   assert (Hk : ws_kind s0 = dc_kind c).
   { unfold open_new in Hopen. destruct (match dc_kind c with KStorage false => _ | _ => _ end); [discriminate|].
@@ -230,7 +230,7 @@ Theorem deferred_output_wf c ops s :
   let ro := roots_opt (dc_nilroots c) (dc_roots c) in
   let stored := spec_stored (dc_kind c) o ro [d_puts ops] in
   let file := d_bytes c (d_run c d_init ops) in
-  dc_faults c = [] -> d_inner (d_run c d_init ops) = Some s -> existsb is_close ops = true ->
+  dc_faults c = [] -> dc_kids c = [] -> d_inner (d_run c d_init ops) = Some s -> existsb is_close ops = true ->
   exists s2 outs fo,
     session (dc_kind c) o (dc_nilroots c) (dc_roots c) [d_puts ops] = Ok (s2, outs, fo) /\ file = ws_file s2 /\
     (fo = ONil ->
@@ -240,8 +240,8 @@ Theorem deferred_output_wf c ops s :
       N.of_nat (length (group_by r_code (ii_load (records_from (ld_size (blen (enc_header ro 1))) stored) []))) < two31) ->
      wf_parse o file = Some (dc_roots c, stored)).
 Proof.
-  intros o ro stored file Hf Hin Hcl.
-  destruct (deferred_is_session c ops s Hf Hin Hcl) as (s2 & outs & fo & Hs & Hb).
+  intros o ro stored file Hf Hnk Hin Hcl.
+  destruct (deferred_is_session c ops s Hf Hnk Hin Hcl) as (s2 & outs & fo & Hs & Hb).
   exists s2, outs, fo. split; [exact Hs|]. split; [exact Hb|].
   intros -> Ho Hip Hmc Hr Hh Hlen Hcodes. unfold file in *. rewrite Hb in *.
   destruct (c05_wf (dc_kind c) o (dc_nilroots c) (dc_roots c) [d_puts ops] s2 outs Hs Ho Hip Hmc Hr
